@@ -187,7 +187,7 @@ func gen(t *rapid.T) world {
 	tbl := schema.ByName[w.table]
 	n := rapid.IntRange(6, 30).Draw(t, "nactions")
 	for i := 0; i < n; i++ {
-		kinds := []string{"live", "live", "write", "write", "write", "write", "deliver", "deliver", "deliver", "writeInSelect", "writeAfterSelect", "alter", "corrupt", "corrupt", "stop"}
+		kinds := []string{"live", "live", "write", "write", "write", "write", "deliver", "deliver", "deliver", "writeInSelect", "writeAfterSelect", "alter", "corrupt", "corrupt", "stop", "badconn"}
 		a := action{Kind: rapid.SampledFrom(kinds).Draw(t, "kind")}
 		if i == 0 {
 			a.Kind = "live"
@@ -500,6 +500,12 @@ func check(w world) (nt bool, labels []string, sig string, err error) {
 				return false, nil, "harness", e
 			}
 			time.Sleep(200 * time.Microsecond)
+		case "badconn":
+			// the next read of the table's column list (done for the first change event of a
+			// table and after its table id changed) fails on every connection database/sql
+			// tries: that event cannot be decoded
+			eng.FailColumns(3)
+			undecodable = true
 		case "alter":
 			eng.AddColumn(w.table)
 			qmu.Lock()
